@@ -23,7 +23,7 @@ RULE = ("driver A: all labelled graphs <= 4 vertices (quick) / 5 (thorough) and 
 ASSUMPTIONS = ["z3 decides the posted program correctly (SAT re-validated by M-SOLVE)",
                "primitive route: stand-in semantics of graph-division = blocks of the border cut, no redundant border, sizes met"]
 REQUIRED = ["vg.cases", "vg.want.valid", "vg.want.invalid", "vg.size.none", "vg.size.const", "vg.size.var", "vg.size.list", "vg.size.array",
-            "vg.size.nested", "vgb.cases", "vgb.want.valid", "vgb.want.invalid", "vgb.primitive", "vgb.frame", "vg.grid", "mwire.exchanges"]
+            "vg.size.nested", "vgb.cases", "vgb.want.valid", "vgb.want.invalid", "vgb.primitive", "vgb.frame", "vg.grid", "mwire.exchanges", "vg.big_boards", "vg.big_boards_borders", "vg.big_block_ge12"]
 
 
 def plan(tier):
@@ -250,6 +250,53 @@ def run(ctx):
                     for kind, spec in (specs if (thorough or m <= 3) else rng.sample(specs, 2)):
                         prim = rng.random() < 0.35
                         driver_b(ctx, n, edges, border, kind, spec, prim, be, frame=(grid if grid and rng.random() < 0.6 else None))
+    # boards too large to enumerate: one long winding block (depth = length) plus the blocks it leaves; sizes up to the board size
+    for t in range(2 if not thorough else 24):
+        h, w = rng.choice([(4, 5), (5, 5), (4, 6), (5, 6), (6, 6), (3, 8)])
+        n, edges = h * w, G.grid_edges(h, w)
+        wm = D.worm(rng, h, w)
+        rest = D.components_of(h, w, {(y, x) for y in range(h) for x in range(w)} - set(wm))
+        part = [sorted(y * w + x for y, x in wm)] + [sorted(y * w + x for y, x in comp) for comp in rest]
+        variants = [("valid", part)]
+        if len(wm) >= 6:
+            # not a partition into connected blocks: the worm's two ends in one block, its middle in another
+            mid = len(wm) // 2
+            ends = sorted(y * w + x for y, x in wm[:mid - 1] + wm[mid + 1:])
+            middle = sorted(y * w + x for y, x in wm[mid - 1:mid + 1])
+            variants.append(("split-worm", [ends, middle] + part[1:]))
+        for what, pt in variants:
+            block_of = [None] * n
+            for b, vs in enumerate(pt):
+                for v in vs:
+                    block_of[v] = b
+            bsz = [len(pt[block_of[v]]) for v in range(n)]
+            specs = list(size_specs(rng, n, bsz))
+            for kind, spec in [specs[0]] + rng.sample(specs[1:], 2):
+                with ctx.guard(300):
+                    driver_a(ctx, n, edges, pt, kind, spec, (h, w), nested=(rng.random() < 0.5))
+                ctx.count("vg.big_boards")
+        if max(len(b) for b in part) >= 12:
+            ctx.count("vg.big_block_ge12")
+        # driver B on the same board: the borders of the valid partition, and the same with one border segment opened
+        block_of = [None] * n
+        for b, vs in enumerate(part):
+            for v in vs:
+                block_of[v] = b
+        border = [1 if block_of[u] != block_of[v] else 0 for u, v in edges]
+        opened = list(border)
+        if 1 in opened:
+            opened[rng.choice([k for k, x in enumerate(opened) if x])] = 0
+        for bd in (border, opened):
+            bl = G.blocks_of_cut(n, edges, bd)
+            cnt = {}
+            for v in range(n):
+                cnt[bl[v]] = cnt.get(bl[v], 0) + 1
+            bsz = [cnt[bl[v]] for v in range(n)]
+            specs = list(size_specs(rng, n, bsz))
+            for kind, spec in [specs[0], rng.choice(specs[1:])]:
+                with ctx.guard(300):
+                    driver_b(ctx, n, edges, bd, kind, spec, False, be, frame=((h, w) if rng.random() < 0.5 else None))
+                ctx.count("vg.big_boards_borders")
     ctx.sample({"driver": "A", "n": 3, "edges": [[0, 1], [1, 2]], "partition": [[0, 2], [1]], "definition": False})
     mwire.uninstall()
     msolve.uninstall()
